@@ -5,10 +5,11 @@
    of key class [d]; [effs] applies a list of them in order.  [W] = 2^64: the epoch counters wrap.
    The hypotheses [len ops + 1 < W] say that fewer than 2^64 operations are considered (a queue of
    2^64 entries cannot exist in memory); they are what keeps the wrapped epoch arithmetic exact.
+   The composition of the agent-side queue with the runtime-side MapOperationQueue across the byte channel
+   (a FIFO pipe: C12) is Proofs/MapTwoStageProofs.v.
    Not covered by theorems (checked by correspondence + oracle on the real lane on every run): the
-   per-remote sync replicas, and the composition of the agent-side queue with the runtime-side
-   MapOperationQueue across the byte channel. *)
-From SwimV Require Import Model.MapLane Proofs.MapQueueProofs Proofs.MapLaneProofs.
+   per-remote sync replicas. *)
+From SwimV Require Import Model.MapLane Proofs.MapQueueProofs Proofs.MapLaneProofs Proofs.MapTwoStageProofs.
 From Coq Require Import Permutation.
 Open Scope N_scope.
 
@@ -86,3 +87,13 @@ Example C02_nonvacuous :
      [QPush (EUpdate (1, 0) 5) false; QPush (EUpdate (2, 0) 6) false; QPush (EUpdate (1, 1) 7) true; QPop] in
   events q = [EUpdate (2, 0) 6] /\ src = Some 7 /\ rep = Some 7 /\ head_epoch q = 0.
 Proof. vm_compute. auto. Qed.
+
+(* the two coalescing queues in series - the lane's event queue, then the remote's queue in the runtime - for both
+   overwrite policies, any starting epochs and every schedule of changes, lane writes and deliveries: what the
+   remote has applied, then what waits in the runtime, then what waits in the lane, gives the lane's value for every
+   key; with both queues drained the remote's replica is the lane's map *)
+Theorem C02_two_stage_converges : forall keep1 keep2 d h1 h2 ops, h1 < W -> h2 < W -> 2 * len ops + 2 < W ->
+  let '(s, src, mid, rep) := ts_track keep1 keep2 d {| t_lane := empty_at h1; t_rt := empty_at h2 |} None None None ops in
+  effs d (events (t_lane s)) (effs d (events (t_rt s)) rep) = src
+  /\ (events (t_lane s) = [] -> events (t_rt s) = [] -> rep = src).
+Proof. exact two_stage_converges. Qed.
